@@ -10,6 +10,7 @@
 package main
 
 import (
+	"context"
 	"encoding/json"
 	"fmt"
 	"sort"
@@ -540,6 +541,14 @@ func exec(st storage.Store, s stmt, bulk int) *bqlm.Result {
 	return bqlm.Exec(st, s.Render(), 0, bulk, nil)
 }
 
+// execCancelled runs the statement under a context that is already done: it may fail, but if it reports success
+// its effect must be the whole stated one.
+func execCancelled(st storage.Store, s stmt, bulk int) *bqlm.Result {
+	ctx, cancel := context.WithCancel(context.Background())
+	cancel()
+	return bqlm.ExecCtx(ctx, st, s.Render(), 0, bulk, nil)
+}
+
 type kase struct {
 	Path []string `json:"statements"`
 	Idx  []int    `json:"alphabet_indexes"`
@@ -556,6 +565,11 @@ func seedStores() [][]int {
 func checkPath(alpha []stmt, seed []int, path []int, bulk int) (ok bool, class, shape, detail string, next mstore, skipped bool) {
 	st := memory.NewStore()
 	m := mstore{}
+	// bulk < 0: the LAST statement runs under a context that is already done (bulk size 1000)
+	cancelled := bulk < 0
+	if cancelled {
+		bulk = 1000
+	}
 	full := append(append([]int{}, seed...), path...)
 	for i, si := range full {
 		s := alpha[si]
@@ -570,8 +584,17 @@ func checkPath(alpha []stmt, seed []int, path []int, bulk int) (ok bool, class, 
 			// patterns over reified groups / non-instantiable templates: no defined model answer
 			return true, "", "", "", nil, true
 		}
-		res := exec(st, s, bulk)
 		last := i == len(full)-1
+		var res *bqlm.Result
+		if last && cancelled {
+			res = execCancelled(st, s, bulk)
+			if res.Stage != "" && res.Stage != "panic" && res.Stage != "hang" {
+				// an error is an answer under a done context; what the store holds then is not judged
+				return true, s.Kind, "", "", nil, false
+			}
+		} else {
+			res = exec(st, s, bulk)
+		}
 		if !last {
 			// earlier steps were checked when their own prefix was explored; only track the model
 			failed := res.Stage != ""
@@ -727,9 +750,12 @@ func main() {
 			common.ParallelFor(len(frontier), func(i int) {
 				for ai := range alpha {
 					path := append(append([]int{}, frontier[i].path...), ai)
-					for _, bulk := range []int{1000, 1} {
+					for _, bulk := range []int{1000, 1, -1} {
 						if bulk == 1 && alpha[ai].Kind != "construct" && alpha[ai].Kind != "deconstruct" {
 							continue
+						}
+						if bulk == -1 && len(path) > 2 {
+							continue // the done-context variant on the transitions out of the states of depth <= 1
 						}
 						ok, class, shape, detail, next, skipped := checkPath(alpha, seed, path, bulk)
 						mu.Lock()
